@@ -20,6 +20,10 @@ var (
 	// Use errors.Is to check if returned error is ErrInvalidLength.
 	ErrInvalidLength = errors.New("invalid length")
 
+	// ErrInvalidValue is wrapped and returned by Date.UnmarshalBinary if passed input does not represent existing date.
+	// Use errors.Is to check if returned error is ErrInvalidValue.
+	ErrInvalidValue = errors.New("invalid value")
+
 	// ErrUnsupportedVersion is wrapped and returned by Date.UnmarshalBinary if passed input has unsupported version.
 	// Use errors.Is to check if returned error is ErrUnsupportedVersion.
 	ErrUnsupportedVersion = errors.New("unsupported version")
